@@ -82,4 +82,12 @@ def C29 : List (String × String) := [("EnsureRead", "a37a8396188f899f"),
 
 def C35 : List (String × String) := []
 
+def C38 : List (String × String) := [("ProposalMaker.PreferEmpty", "557bd293dd5b599b"),
+  ("ProposalMaker.preferEmpty", "8e490e5d12ad5ee1"),
+  ("ProposalMaker.Make", "e34ede2b909caf8a"),
+  ("ProposalMaker.makeNew", "b0c64b7df2ee1d86"),
+  ("ProposalMaker.makeProposal", "dc19eed902c53b8e"),
+  ("NewProposalFact", "858dfac40cd03508"),
+  ("NewProposalSignFact", "822fe03854c43c42")]
+
 end Mitum.Pins
